@@ -143,11 +143,18 @@ func run(env *simrt.Env, sci interface{}) {
 		}
 		return
 	}
+	// the channel most recently handed out by Done, and when: a waiter blocked on it is only
+	// ever woken by this very channel being closed, whatever later calls of Done report
+	var heldCh <-chan struct{}
+	var heldAt uint64
 	observe := func(who string) bool {
 		s0 := env.Stamp()
 		ch := d.Done()
 		closed := isClosed(ch)
 		s1 := env.Stamp()
+		if s0 >= heldAt {
+			heldCh, heldAt = ch, s0
+		}
 		tObs := env.Now()
 		vals, _ := admissible(s0, s1)
 		if closed {
@@ -253,9 +260,17 @@ func run(env *simrt.Env, sci interface{}) {
 					}
 					last := sets[len(sets)-1].val
 					now := env.Now()
-					if !last.IsZero() && !last.Add(time.Microsecond).After(now) && !isClosed(d.Done()) {
-						env.Fail("C09/not-signalled-after-deadline", "%s: the system has settled at %v, the last Set (%v after start) has passed, but Done is not closed (Err=%v)", who, now.Sub(env.Start()), last.Sub(env.Start()), d.Err())
-						return
+					if !last.IsZero() && !last.Add(time.Microsecond).After(now) {
+						// first the channel a waiter already holds (handed out after this Set returned,
+						// no observers besides this worker in a strict run can have replaced it), then a fresh one
+						if held := heldCh; heldAt > sets[len(sets)-1].ret && !isClosed(held) {
+							env.Fail("C09/waiter-never-woken", "%s: the system has settled at %v, the last Set (%v after start) has passed, but the channel Done handed out after that Set is still open: a waiter blocked on it sleeps on", who, now.Sub(env.Start()), last.Sub(env.Start()))
+							return
+						}
+						if !isClosed(d.Done()) {
+							env.Fail("C09/not-signalled-after-deadline", "%s: the system has settled at %v, the last Set (%v after start) has passed, but Done is not closed (Err=%v)", who, now.Sub(env.Start()), last.Sub(env.Start()), d.Err())
+							return
+						}
 					}
 					env.Probe("strict-check")
 				}
@@ -272,6 +287,8 @@ func run(env *simrt.Env, sci interface{}) {
 	}
 	// liveness at quiescence: every timer has fired and every callback has run
 	env.Quiesce()
+	held, heldStamp := heldCh, heldAt
+	heldOpen := held != nil && !isClosed(held) // looked at before Done or Err are called again
 	closed := isClosed(d.Done())
 	err := d.Err()
 	var last time.Time
@@ -299,6 +316,20 @@ func run(env *simrt.Env, sci interface{}) {
 	if !closed || err != context.DeadlineExceeded {
 		env.Fail("C09/not-signalled-after-deadline", "at quiescence the last Set (%v after start) has passed but Done closed=%v Err=%v", last.Sub(env.Start()), closed, err)
 		return
+	}
+	// a waiter that obtained its channel after every Set had returned holds the final channel
+	afterAll := held != nil
+	for _, st := range sets {
+		if st.ret == 0 || st.ret >= heldStamp {
+			afterAll = false
+		}
+	}
+	if afterAll {
+		env.Probe("held-channel-checked")
+		if heldOpen {
+			env.Fail("C09/waiter-never-woken", "at quiescence the last Set (%v after start) has passed and Done() reports it, but the channel Done handed out after the last Set returned was never closed: a waiter blocked on it sleeps on", last.Sub(env.Start()))
+			return
+		}
 	}
 	if closed {
 		env.Probe("expired-at-end")
